@@ -501,11 +501,11 @@ func init() {
 		Required: []string{"generated.css", "generated.js", "generated.html", "generated.xml", "tokens.css", "tokens.js", "tokens.html", "tokens.xml", "relex", "html.bytes_lowercased", "xml.bytes_spaced", "html.gaps", "xml.gaps", "probes"},
 		Streams: []fw.Stream{
 			{Name: "probes", Quick: len(c02Probes), Thorough: len(c02Probes), Run: c02Probe},
-			{Name: "css", Quick: 500000, Thorough: 12000000, Run: c02Run("css")},
-			{Name: "js", Quick: 500000, Thorough: 12000000, Run: c02Run("js")},
-			{Name: "html", Quick: 600000, Thorough: 14000000, Run: c02Run("html")},
-			{Name: "xml", Quick: 400000, Thorough: 10000000, Run: c02Run("xml")},
-			{Name: "generated", Quick: 300000, Thorough: 8000000, Run: c02Generated},
+			{Name: "css", Quick: 500000, Thorough: 36000000, Run: c02Run("css")},
+			{Name: "js", Quick: 500000, Thorough: 36000000, Run: c02Run("js")},
+			{Name: "html", Quick: 600000, Thorough: 42000000, Run: c02Run("html")},
+			{Name: "xml", Quick: 400000, Thorough: 30000000, Run: c02Run("xml")},
+			{Name: "generated", Quick: 300000, Thorough: 24000000, Run: c02Generated},
 		},
 	})
 }
